@@ -839,7 +839,7 @@ static void child_main(const Image& im, const std::vector<Attempt>& at, int star
     if (at[i].mode == M_FULL && g_sh->res[i].outcome == O_OK) ref[at[i].path] = g_sh->res[i].digest;
   }
   g_sh->finished = 1;
-  _exit(0);
+  vt::child_exit(0);
 }
 
 static std::vector<Attempt> make_attempts(const Image& im, int vals_mode) {
